@@ -271,6 +271,9 @@ def _assign(target, value, loc) -> list:
                     continue
                 out.append(ast.copy_location(ast.Assign(targets=[ast.Name(id=t, ctx=ast.Store())], value=v, lineno=getattr(loc, "lineno", 1)), loc))
             return out or [ast.copy_location(ast.Pass(), loc)]
+    tname = target if isinstance(target, str) else (target.id if isinstance(target, ast.Name) else None)
+    if tname is not None and isinstance(value, ast.Name) and value.id == tname:
+        return []  # `x = x`
     return [ast.copy_location(ast.Assign(targets=[_tgt(target)], value=value, lineno=getattr(loc, "lineno", 1)), loc)]
 
 
